@@ -186,7 +186,7 @@ impl Check for Registries {
         if tier == Tier::Quick {
             800
         } else {
-            15000
+            10000
         }
     }
     fn components(&self) -> serde_json::Value {
